@@ -317,8 +317,9 @@ impl Stats {
     }
 }
 
-fn status_path(id: &str, shard: usize) -> String {
-    format!("/verif/target/run/{}/w{}.cur", id, shard)
+/// one file per (property, tier, parent process, shard): two runs of the same check do not share it
+fn status_path(id: &str, tier: Tier, parent: u32, shard: usize) -> String {
+    format!("/verif/target/run/{}/{}-{}-w{}.cur", id, tier.name(), parent, shard)
 }
 
 pub fn classify<'a>(f: &Failure, findings: &'a [Finding], active: &HashSet<String>) -> Option<&'a Finding> {
@@ -336,7 +337,7 @@ pub fn worker_main(engine: &dyn Engine, tier: Tier, shard: usize, n: usize, from
     let mut idx: u64 = 0;
     let out = std::io::stdout();
     std::fs::create_dir_all(format!("/verif/target/run/{}", engine.id())).ok();
-    let mut status = std::fs::File::create(status_path(engine.id(), shard)).expect("status file");
+    let mut status = std::fs::File::create(status_path(engine.id(), tier, std::os::unix::process::parent_id(), shard)).expect("status file");
     let max_viol_lines = 40u64;
     let mut last_flush = Instant::now();
     let mut run_one = |case: &str| {
@@ -642,7 +643,7 @@ pub fn check_main(engine: &dyn Engine, tier: Tier) -> i32 {
                 if let Some(p) = &last_p {
                     total.merge(p);
                 }
-                let cur = std::fs::read_to_string(status_path(id, w.shard)).unwrap_or_default();
+                let cur = std::fs::read_to_string(status_path(id, tier, std::process::id(), w.shard)).unwrap_or_default();
                 let mut parts = cur.trim_end().splitn(2, '\t');
                 let idx: Option<u64> = parts.next().and_then(|s| s.parse().ok());
                 let case: Option<String> = parts.next().and_then(|s| serde_json::from_str(s).ok());
@@ -675,6 +676,9 @@ pub fn check_main(engine: &dyn Engine, tier: Tier) -> i32 {
                 }
             }
         }
+    }
+    for shard in 0..n {
+        let _ = std::fs::remove_file(status_path(id, tier, std::process::id(), shard));
     }
     if let Some(e) = engine_error {
         println!("MACHINERY-ERROR property={} {}", id, e);
